@@ -35,6 +35,35 @@ fn reader_section(hl: &VerifHalfLock<Canary>) {
     });
 }
 
+/// Readers that loop until the writer is done (for the chain scenario).
+fn build_chain(readers: usize, stores: usize) -> (Arc<VerifHalfLock<Canary>>, Vec<Body>, LocMap, u64) {
+    let hl = Arc::new(VerifHalfLock::new(Canary { id: 1 }));
+    let mut locs = LocMap::default();
+    locs.add_halflock(hl.layout(), "");
+    let init_ptr = hl.read_with(|c| c as *const Canary as u64);
+    let stop = Arc::new(std::sync::atomic::AtomicBool::new(false));
+    let mut bodies: Vec<Body> = Vec::new();
+    for _ in 0..readers {
+        let hl = hl.clone();
+        let stop = stop.clone();
+        bodies.push(Box::new(move || {
+            let mut n = 0;
+            while !stop.load(Ordering::SeqCst) && n < 100_000 {
+                reader_section(&hl);
+                n += 1;
+            }
+        }));
+    }
+    let hl2 = hl.clone();
+    bodies.push(Box::new(move || {
+        for k in 0..stores {
+            hl2.store(Canary { id: 2 + k as u64 });
+        }
+        stop.store(true, Ordering::SeqCst);
+    }));
+    (hl, bodies, locs, init_ptr)
+}
+
 fn build(scn: &Scn) -> (Arc<VerifHalfLock<Canary>>, Vec<Body>, LocMap, u64) {
     let hl = Arc::new(VerifHalfLock::new(Canary { id: 1 }));
     let mut locs = LocMap::default();
@@ -105,6 +134,14 @@ fn normalise(res: &RunResult, locs: &LocMap, init_ptr: u64) -> (Vec<String>, Vec
     match &res.outcome {
         Outcome::Done => {}
         Outcome::Unstuck(_) | Outcome::Deadlock => tail.push(Obj::new("deadlock").int("t", 0).int("d", 0).int("hdepth", res.stuck.iter().map(|s| s.1 as i64).max().unwrap_or(0)).done()),
+        Outcome::Lasso(why) => tail.push(
+            Obj::new("livelock")
+                .int("t", 0)
+                .int("d", 0)
+                .int("hdepth", res.stuck.iter().map(|s| s.1 as i64).max().unwrap_or(0))
+                .str("why", why)
+                .done(),
+        ),
         Outcome::Livelock | Outcome::StepLimit => tail.push(Obj::new("livelock").int("t", 0).int("d", 0).int("hdepth", res.stuck.iter().map(|s| s.1 as i64).max().unwrap_or(0)).done()),
         Outcome::Aborted(r) => tail.push(Obj::new("aborted").int("t", 0).int("d", 0).str("why", r).done()),
     }
@@ -158,6 +195,7 @@ pub fn main(args: &Args) -> i32 {
     let mut distinct_fine: HashSet<u64> = HashSet::new();
     let mut anomalies: Vec<String> = Vec::new();
     let mut exhausted = false;
+    let mut chain_hints = 0usize;
     let replay_codes: Option<Vec<String>> = args
         .get("replay")
         .map(|s| s.split_whitespace().map(|x| x.to_string()).collect());
@@ -165,7 +203,11 @@ pub fn main(args: &Args) -> i32 {
         if count >= max {
             break;
         }
-        let (hl, bodies, locs, init_ptr) = build(&scn);
+        let (hl, bodies, locs, init_ptr) = if mode == "chain" {
+            build_chain(scn.readers.max(2), scn.stores)
+        } else {
+            build(&scn)
+        };
         let deliver_hl = hl.clone();
         let mut cfg = RunCfg::default();
         cfg.signals = vec![10];
@@ -177,12 +219,20 @@ pub fn main(args: &Args) -> i32 {
             _ => (scn.readers..scn.readers + scn.writers).collect(),
         };
         cfg.deliver_at_start = false;
+        cfg.post_points = args.flag("post-points");
         cfg.handler_atomic = args.flag("handler-atomic");
         cfg.preemption_bound = args.get("preempt").map(|s| s.parse().unwrap());
         cfg.deliver = Some(Arc::new(move |_sig, _id| reader_section(&deliver_hl)));
         let res = if let Some(codes) = &replay_codes {
             let mut rp = Replay::new(codes.clone());
             sched::run(bodies, &mut rp, &cfg)
+        } else if mode == "chain" {
+            let mut ch = sched::Chain::new(scn.readers.max(2));
+            cfg.max_deliveries = 0;
+            cfg.max_steps = 20_000;
+            let r = sched::run(bodies, &mut ch, &cfg);
+            chain_hints = ch.writer_hints;
+            r
         } else if mode == "random" {
             sched::run(bodies, &mut rnd as &mut dyn Strategy, &cfg)
         } else {
@@ -214,11 +264,11 @@ pub fn main(args: &Args) -> i32 {
         if res.outcome != Outcome::Done || !res.panics.is_empty() {
             if anomalies.len() < 5 {
                 anomalies.push(format!(
-                    "{{\"n\":{},\"outcome\":\"{:?}\",\"schedule\":\"{}\"}}",
+                    "{{\"n\":{},\"outcome\":\"{}\",\"schedule\":\"{}\"}}",
                     count,
-                    res.outcome,
+                    format!("{:?}", res.outcome).replace('"', "'").replace('\\', ""),
                     codes.join(" ")
-                ).replace("\"Aborted(\"", "\"Aborted(").replace("\")\"", ")\""));
+                ));
             }
             if res.outcome != Outcome::Done {
                 // Threads were leaked; do not keep going for long.
@@ -230,7 +280,7 @@ pub fn main(args: &Args) -> i32 {
         }
         drop(hl);
         count += 1;
-        if replay_codes.is_some() {
+        if replay_codes.is_some() || mode == "chain" {
             break;
         }
         if mode == "dfs" && !dfs.advance() {
@@ -242,13 +292,14 @@ pub fn main(args: &Args) -> i32 {
     abs_w.flush().unwrap();
     sched_w.flush().unwrap();
     println!(
-        "{{\"schedules\":{},\"events\":{},\"distinct_abs_traces\":{},\"distinct_fine_traces\":{},\"exhausted\":{},\"nondeterminism\":{},\"anomalies\":[{}]}}",
+        "{{\"schedules\":{},\"events\":{},\"distinct_abs_traces\":{},\"distinct_fine_traces\":{},\"exhausted\":{},\"nondeterminism\":{},\"chain_writer_hints\":{},\"anomalies\":[{}]}}",
         count,
         events,
         distinct.len(),
         distinct_fine.len(),
         exhausted,
         dfs.nondeterminism,
+        chain_hints,
         anomalies.join(",")
     );
     0
